@@ -11,7 +11,8 @@ W=/tmp/cov
 TOOLS=$(dirname "$(find /root/.rustup/toolchains/nightly-x86_64-unknown-linux-gnu -name llvm-cov -type f | head -1)")
 mkdir -p $W/prof /verif/notes
 cd /verif/harness
-RUSTFLAGS="--cfg iroh_docs_verif -C instrument-coverage" CARGO_TARGET_DIR=$W/target cargo +nightly build --offline 2>&1 | tail -1
+LLVM_PROFILE_FILE=$W/build-%p-%m.profraw RUSTFLAGS="--cfg iroh_docs_verif -C instrument-coverage" CARGO_TARGET_DIR=$W/target cargo +nightly build --offline 2>&1 | tail -1
+rm -f $W/build-*.profraw
 (cd /verif/lean && lake build docsmodel >/dev/null 2>&1)
 EXE=$W/target/debug/verif-harness
 TIER=${1:-quick}
